@@ -16,8 +16,8 @@ ADDENDA = {
     "C04": " Nothing partial: a returned value is the first member delivered for that id while pending (ghost delivery log), order/partition irrelevance, wire ids and spec order of batches, single consumer per reply. Monitors of the racing scenarios are Coq functions proved of every model run and evaluated by the extracted runner on every log, racing ones included: mon_ids_fresh (c04_mon_ids_fresh_sound).",
     "C05": " Nothing partial: liveness at quiescence and reachability of quiescence by release steps (measure), OnCancel exactly-once counting, OnStop once with the first cause, Close returns only after every callback handler, no goroutine left, failure outcomes. The client harness has a racing mode (monitors only). Monitors of the racing scenarios are Coq functions proved of every model run and evaluated by the extracted runner on every log, racing ones included: mon_return_once, mon_onstop_once, mon_close_seals.",
     "C06": " Also: step-level work conservation (a released slot is handed to the head waiter in the same window), waits only when full in every reachable state. Monitors of the racing scenarios are Coq functions proved of every model run and evaluated by the extracted runner on every log, racing ones included: mon_concurrency (c06_mon_concurrency_sound, every prefix).",
-    "C07": " Also: free iff no unfinished holder, a freed id is accepted again, delivering one unit leaves other units' reservations and contexts alone. The base context (ServerOptions.NewContext) is not in the model: that cause is covered by racing scenarios and monitors only. Monitors of the racing scenarios are Coq functions proved of every model run and evaluated by the extracted runner on every log, racing ones included: mon_duplicate (c07_mon_duplicate_sound; the unconditional form is refuted with a witness).",
-    "C08": " Also: status flags as WaitStatus computes them, notifications handled after a stop, no callback watcher left, Start enabled after WaitStatus, release steps strictly decrease a measure (eventual quiescence/termination). Restart: a restarted server is the embedding of a fresh one for EVERY history, callback records included (c08_restart_simulation: step commutes with the embedding, runs correspond both ways up to the renaming of callback ids; environment hypotheses explicit and each shown necessary by a refutation witness). No _partial theorem remains.",
+    "C07": " Also: free iff no unfinished holder, a freed id is accepted again, delivering one unit leaves other units' reservations and contexts alone. The base context (ServerOptions.NewContext) is not in the model: that cause is covered by racing scenarios and monitors only. Monitors of the racing scenarios are Coq functions proved of every model run and evaluated by the extracted runner on every log, racing ones included: mon_duplicate (c07_mon_duplicate_sound; the unconditional form is refuted with a witness), mon_cancel_cause (c07_mon_cancel_cause_sound).",
+    "C08": " Also: status flags as WaitStatus computes them, notifications handled after a stop, no callback watcher left, Start enabled after WaitStatus, release steps strictly decrease a measure (eventual quiescence/termination). Restart: a restarted server is the embedding of a fresh one for EVERY history, callback records included (c08_restart_simulation: step commutes with the embedding, runs correspond both ways up to the renaming of callback ids; environment hypotheses explicit and each shown necessary by a refutation witness). No _partial theorem remains. Monitor mon_wait_status (c08_mon_wait_status_sound: the reported status class has its cause among the environment labels) is a Coq function proved of every model run and evaluated on every log, racing ones included.",
     "C09": " Also: gate and late replies stated on step from reachable states, exactly one return per push call over whole traces. The check also runs the library's own Client as the callback peer (family cli:c09: handlers that fail with coded/uncoded errors, return unencodable values, panic) against the client model. Monitors of the racing scenarios are Coq functions proved of every model run and evaluated by the extracted runner on every log, racing ones included: mon_push_ids (c09_push_ids_consecutive, c09_push_returns_le_calls).",
     "C10": " Byte level: what the server and client models pass to Send encodes to one JSON object or non-empty array of objects that parses back (module Bytes10). Also: every run of the server model mapped to lock/Send/Recv/Close events is well-locked and disciplined; client half (module Cli): Close once, every channel operation inside one critical section, none after stop, single reader. The check drives both sides (families c10 and cli:c10).",
     "C11": " Also: Direct under every interleaving of Send/Recv/Close, independence of the reader window, chunked-reader models for the split and header framings (recv over any chunking = recv over the concatenation), RawJSON literals.",
